@@ -705,7 +705,7 @@ def rule_3(ctx):
     anchor = ctx.mod('parser').func('FormulaParser.parse')
     for formula, want in TREE_WITNESSES:
         got = P.parse_tree(ctx, formula, models)
-        ctx.expect(got == want, anchor, f'tree of {formula}',
+        ctx.expect(got == P.refify(want), anchor, f'tree of {formula}',
                    f'{formula!r} is parsed as {got!r}, expected {want!r}: every token must be consumed as what the text denotes (calls with their '
                    'arguments in order, literals with their value, references with their text, string literals as opaque text)')
     ctx.floor(len(TREE_WITNESSES), 'witness formulas')
